@@ -155,6 +155,7 @@ def one(case, pn, tn, acc):
 def judge(run, w, acc, case):
     names = run.names
     acc.count2('oracle', 'grammar_checked')
+    acc.executed()
     key = monitors.grammar_violation(names, run.end == 'stop')
     if key is None:
         key = monitors.run_end_violation(run, w)
